@@ -9,11 +9,40 @@
 // them under property C11.
 package db
 
-//@ define bmap(b) = gmap("bmap", b)
-//@ define bhas(b, k) = has(gmap("bmap", b), strOf(k))
-//@ define bval(b, k) = gmap("bmap", b)[strOf(k)]
-//@ define bsame(b) = (forall s string :: has(gmap("bmap", b), s) == old(has(gmap("bmap", b), s)) && gmap("bmap", b)[s] == old(gmap("bmap", b)[s]))
-//@ define bsameExcept(b, k) = (forall s string :: s != strOf(k) ==> has(gmap("bmap", b), s) == old(has(gmap("bmap", b), s)) && gmap("bmap", b)[s] == old(gmap("bmap", b)[s]))
+// id-level forms (id = ghost identity of a bucket) and bucket-level forms (b = a Bucket value)
+//@ define bmapI(id) = gmap("bmap", id)
+//@ define bhasI(id, k) = has(gmap("bmap", id), strOf(k))
+//@ define bvalI(id, k) = gmap("bmap", id)[strOf(k)]
+//@ define bsameI(id) = (forall qs_ string :: has(gmap("bmap", id), qs_) == old(has(gmap("bmap", id), qs_)) && gmap("bmap", id)[qs_] == old(gmap("bmap", id)[qs_]))
+//@ define bsameExceptI(id, k) = (forall qs_ string :: qs_ != strOf(k) ==> has(gmap("bmap", id), qs_) == old(has(gmap("bmap", id), qs_)) && gmap("bmap", id)[qs_] == old(gmap("bmap", id)[qs_]))
+//@ define bid(b) = ghost("bkt", b)
+//@ define bmap(b) = bmapI(ghost("bkt", b))
+//@ define bhas(b, k) = bhasI(ghost("bkt", b), k)
+//@ define bval(b, k) = bvalI(ghost("bkt", b), k)
+//@ define bsame(b) = bsameI(ghost("bkt", b))
+//@ define bsameExcept(b, k) = bsameExceptI(ghost("bkt", b), k)
+
+//@ define bucketOf(tx, meta) = ghost("bucketOf", tx, meta)
+//@ define distinctBkts(tx, a, b) = (ghost("bucketOf", tx, a) != ghost("bucketOf", tx, b))
+
+// FetchBucket: the bucket identity is a function of (transaction, meta); non-nil is an assumption
+// (the metas of StoreBucketMeta are created in NewUtxoStore/NewTxStore/NewSyncStore and checked by CheckInit).
+//@ func DBTransaction.FetchBucket
+//@   props C01 C08 C09 C10 C12 C18
+//@   ensures result != nil && ghost("bkt", result) == bucketOf(recv, meta)
+
+//@ func ReadTransaction.FetchBucket
+//@   props C01 C08 C09 C10 C12 C17 C18
+//@   ensures result != nil && ghost("bkt", result) == bucketOf(recv, meta)
+
+// GetByPrefix: every returned entry is a present entry whose key starts with the prefix (soundness half).
+//@ func Bucket.GetByPrefix
+//@   props C01 C08 C09 C10 C11 C12 C18
+//@   requires recv != nil
+//@   ensures err != nil ==> result == nil
+//@   ensures forall i int :: 0 <= i && i < len(result) ==> result[i] != nil && len(result[i].Value) > 0 && len(result[i].Key) >= len(p0)
+//@   ensures forall i int :: 0 <= i && i < len(result) ==> bytesEq(result[i].Key, 0, p0, 0, len(p0))
+//@   ensures forall i int :: 0 <= i && i < len(result) ==> has(bmap(recv), strOf(result[i].Key)) && bmap(recv)[strOf(result[i].Key)] == strOf(result[i].Value)
 
 //@ func Bucket.Get
 //@   props C01 C08 C09 C10 C11 C12 C18
@@ -22,6 +51,8 @@ package db
 //@   ensures err == nil && len(key) == 0 ==> result == nil
 //@   ensures err == nil && len(key) > 0 ==> (result != nil) == bhas(recv, key)
 //@   ensures result != nil ==> len(result) > 0 && strOf(result) == bval(recv, key)
+// the returned value may be appended to by the caller (assumption on every implementation)
+//@   ensures result != nil ==> fresh(result)
 
 //@ func Bucket.Put
 //@   props C01 C08 C09 C10 C11 C12 C18
